@@ -13,6 +13,24 @@ import (
 	"github.com/cloudwego/hertz/pkg/route/param"
 )
 
+// richOriginal gives the original something to copy in every part a handler usually fills before it hands a copy
+// to a goroutine: keys, an error, response status, headers, cookie, trailer and body.
+func richOriginal(ctx *app.RequestContext) {
+	ctx.Set("c09", "first")
+	ctx.Set("x06", 7)
+	ctx.Error(errors.New("first-error")) //nolint:errcheck
+	ctx.Response.SetStatusCode(201)
+	ctx.Response.Header.Set("X-C09", "first-resp")
+	ctx.Response.Header.Set("X-First", "1")
+	ctx.Response.Header.SetContentType("text/first")
+	ck := &protocol.Cookie{}
+	ck.SetKey("rc")
+	ck.SetValue("first")
+	ctx.Response.Header.SetCookie(ck)
+	ctx.Response.Header.Trailer().Set("X-First-T", "tv") //nolint:errcheck
+	ctx.Response.SetBodyString("first-body")
+}
+
 func zs(n int) string {
 	if n < 3 {
 		n = 3
